@@ -246,7 +246,17 @@ def run(ctx):
                 "accepted languages to Locale::find_locale; a negotiation that prefers a later entry resolves another initial locale", floor=2)
     if not res[1] and not r4.violations:
         r4.viol("R4:undecided", "the negotiation cannot be interpreted on the current code (%s): not decided on this tree (fail closed)" % str(res[2] if len(res) > 2 else "")[:200])
-    return [r1_chains(ctx), r2_cookie(ctx), r3_own_options(ctx), r4]
+    # `the cookie's locale when the cookie holds a configured locale name ... an invalid cookie value is ignored, never trusted`:
+    # the cookie text is parsed with the generated FromStr - exactly the configured names, anything else Err(()) (the from_str
+    # clauses of C13.R0: create_locales_enum evaluated and read back, rules/c13.py)
+    from rules import c13
+    k13 = c13.r0_generated(ctx)
+    r5 = borrow(k13[0], "C15.R5", "a cookie value is a locale only when it is exactly a configured name",
+                "`an invalid cookie value is ignored, never trusted`: the cookie codec is the locale's FromStr; a from_str that negotiates or normalises "
+                "turns an arbitrary cookie (`fr-CA` when only `fr` is configured) into a locale that overrides the Accept-Language header", only=r"from_str", floor=1)
+    if not k13[1] and not r5.violations:
+        r5.viol("R5:undecided", "the generator cannot be interpreted on the current code: not decided on this tree (fail closed)")
+    return [r1_chains(ctx), r2_cookie(ctx), r3_own_options(ctx), r4, r5]
 
 
 MANIFEST_ENTRY = {
